@@ -94,6 +94,103 @@ theorem assemble_ordered_eq_fixed {it₁ it₂ : List Nat → List Nat}
 example : assemble sortKeys sortKeys twelve (fun _ => []) = assembleFixed twelve (fun _ => []) :=
   assemble_ordered_eq_fixed sortKeys_ordered sortKeys_ordered _ _
 
+/-- an arbitrary iteration discipline (what `HashMap` gives): some permutation of the keys -/
+def PermIter (it : List Nat → List Nat) : Prop := ∀ ks, (it ks).Perm ks
+
+theorem orderedIter_permIter {it : List Nat → List Nat} (h : OrderedIter it) : PermIter it :=
+  fun ks => (h ks).2
+
+/-- same exterior, same interiors up to their order -/
+def PolyEquiv (p q : Poly) : Prop := p.ext = q.ext ∧ p.ints.Perm q.ints
+
+/-- For *any* visiting order `o` of `parents_of`: ring `k` becomes a polygon iff some visited ring
+names it (`keyOf`: an even ring names itself, an odd ring its direct parent), and its interiors
+are the odd rings naming it, in visiting order. -/
+theorem polygons_idxs_spec (par : Nat → List Nat) (n : Nat) (o : List Nat) (k : Nat) :
+    (k ∈ (buildIdxs par n o).keys ↔ ∃ i, i ∈ o ∧ Lemmas.C20.keyOf par n i = some k) ∧
+    (buildIdxs par n o).val k =
+      o.filter (fun i => Lemmas.C20.isChild par i && Lemmas.C20.keyOf par n i == some k) :=
+  Lemmas.C20.buildIdxs_spec par n o k
+
+/-- Whatever the iteration orders of the two maps (pinned code, any hash seeds), the result is
+the fixed result up to the order of the polygons and of each polygon's interiors: the defect F9
+was purely one of order, and the repair changes nothing else. -/
+theorem assemble_hash_perm {it₁ it₂ : List Nat → List Nat} (h₁ : PermIter it₁) (h₂ : PermIter it₂)
+    (rings : List Ring) (par : Nat → List Nat) :
+    ∃ l, (assemble it₁ it₂ rings par).Perm l ∧
+      Lemmas.C20.Rel2 PolyEquiv l (assembleFixed rings par) := by
+  let n := rings.length
+  let m := buildIdxs par n (it₁ (List.range n))
+  let m' := buildIdxs par n (sortKeys (List.range n))
+  have ho : (it₁ (List.range n)).Perm (sortKeys (List.range n)) :=
+    (h₁ _).trans (Lemmas.C20.sortKeys_perm _).symm
+  have hk : (it₂ m.keys).Perm (sortKeys m'.keys) :=
+    ((h₂ _).trans (Lemmas.C20.buildIdxs_keys_perm ho)).trans (Lemmas.C20.sortKeys_perm _).symm
+  refine ⟨(sortKeys m'.keys).map (fun k => polyOfIdx rings k (m.val k)), hk.map _, ?_⟩
+  show Lemmas.C20.Rel2 PolyEquiv _ ((sortKeys m'.keys).map (fun k => polyOfIdx rings k (m'.val k)))
+  apply Lemmas.C20.rel2_map_same
+  intro k _
+  exact ⟨rfl, (Lemmas.C20.buildIdxs_val_perm ho k).map _⟩
+
+/-- non-vacuity: the reversed iteration of the twelve squares is such a permutation -/
+example : ∃ l, (assemble id List.reverse twelve (fun _ => [])).Perm l ∧
+    Lemmas.C20.Rel2 PolyEquiv l (assembleFixed twelve (fun _ => [])) :=
+  assemble_hash_perm (fun _ => List.Perm.refl _) (fun ks => List.reverse_perm ks) _ _
+
+/-- `find_and_fix_holes_in_exterior` looks at the exterior only and appends to the interiors -/
+theorem findAndFixHoles_equiv (C : Cont) {p q : Poly} (h : PolyEquiv p q) :
+    PolyEquiv (findAndFixHoles C p) (findAndFixHoles C q) := by
+  obtain ⟨he, hi⟩ := h
+  cases hfo : findOutmost C (splitExterior q.ext) with
+  | none =>
+    have e1 : findAndFixHoles C p = p := by simp only [findAndFixHoles, he, hfo]
+    have e2 : findAndFixHoles C q = q := by simp only [findAndFixHoles, hfo]
+    rw [e1, e2]; exact ⟨he, hi⟩
+  | some o =>
+    have e1 : findAndFixHoles C p = ⟨P.closeRing ((splitExterior q.ext).getD o []),
+        (p.ints ++ (splitExterior q.ext).eraseIdx o).map P.closeRing⟩ := by
+      simp only [findAndFixHoles, he, hfo]
+    have e2 : findAndFixHoles C q = ⟨P.closeRing ((splitExterior q.ext).getD o []),
+        (q.ints ++ (splitExterior q.ext).eraseIdx o).map P.closeRing⟩ := by
+      simp only [findAndFixHoles, hfo]
+    rw [e1, e2]; exact ⟨rfl, (hi.append_right _).map _⟩
+
+theorem stitchTriangles_eq_map (C : Cont) (tris : List Tri) :
+    stitchTriangles C tris = (stitchRingsFromLines (boundaryOf tris)).map (fun rings =>
+      (assembleFixed rings (fun i => (parentsTable C rings).getD i [])).map (findAndFixHoles C)) := by
+  unfold stitchTriangles
+  cases stitchRingsFromLines (boundaryOf tris) <;> rfl
+
+theorem stitchTrianglesHash_eq_map (it₁ it₂ : List Nat → List Nat) (C : Cont) (tris : List Tri) :
+    stitchTrianglesHash it₁ it₂ C tris = (stitchRingsFromLines (boundaryOf tris)).map (fun rings =>
+      (assemble it₁ it₂ rings (fun i => (parentsTable C rings).getD i [])).map (findAndFixHoles C)) := by
+  unfold stitchTrianglesHash
+  cases stitchRingsFromLines (boundaryOf tris) <;> rfl
+
+/-- The same for the whole of `stitch_triangles`: under any hash iteration orders the pinned code
+returns `Err` exactly when the fixed code does, and otherwise the fixed result up to the order of
+the polygons and of each polygon's interiors. -/
+theorem stitchTrianglesHash_perm {it₁ it₂ : List Nat → List Nat} (h₁ : PermIter it₁) (h₂ : PermIter it₂)
+    (C : Cont) (tris : List Tri) :
+    (stitchTriangles C tris = none → stitchTrianglesHash it₁ it₂ C tris = none) ∧
+    (∀ r', stitchTriangles C tris = some r' →
+      ∃ r l, stitchTrianglesHash it₁ it₂ C tris = some r ∧ r.Perm l ∧
+        Lemmas.C20.Rel2 PolyEquiv l r') := by
+  rw [stitchTriangles_eq_map, stitchTrianglesHash_eq_map]
+  cases stitchRingsFromLines (boundaryOf tris) with
+  | none => exact ⟨fun _ => rfl, fun _ h => by simp at h⟩
+  | some rings =>
+    refine ⟨fun h => by simp at h, fun r' h => ?_⟩
+    obtain ⟨l, hp, hr⟩ := assemble_hash_perm h₁ h₂ rings
+      (fun i => (parentsTable C rings).getD i [])
+    have hr' : (assembleFixed rings (fun i => (parentsTable C rings).getD i [])).map
+        (findAndFixHoles C) = r' := by simpa using h
+    subst hr'
+    refine ⟨(assemble it₁ it₂ rings (fun i => (parentsTable C rings).getD i [])).map
+      (findAndFixHoles C), l.map (findAndFixHoles C), Option.map_some .., hp.map _, ?_⟩
+    exact Lemmas.C20.rel2_map (findAndFixHoles C) (findAndFixHoles C)
+      (fun _ _ => findAndFixHoles_equiv C) hr
+
 /-- the whole of `stitch_triangles` after the fix is the pinned code run with key-ordered maps -/
 theorem stitchTriangles_eq_hash_ordered {it₁ it₂ : List Nat → List Nat}
     (h₁ : OrderedIter it₁) (h₂ : OrderedIter it₂) (C : Cont) (tris : List Tri) :
